@@ -90,3 +90,24 @@ Theorem C04_failed_create_by_query_leaves_exactly_this : forall db h c q,
     end.
 Proof. exact create_by_query_refines. Qed.
 Print Assumptions C04_failed_create_by_query_leaves_exactly_this.
+
+(* ---- history level, every operation of the API, every call position (Proofs/CrashInvProofs.v): a store failure (C04) or a crash (C05) while store call k of the next operation is in flight — the same execution in the model: whatever the in-flight transaction has not committed is discarded — leaves a store that still refines a well-formed abstract database (documents, index entries, counts and catalog mutually consistent, no rebuild); for single-transaction operations it is exactly the state before or after; the history can go on after reopening; a fault that fired is always reported ---- *)
+From Clover Require Import HistoryProofs CompositeSpec CompositeProofs CrashInvProofs.
+Theorem C04_fault_after_any_history_keeps_invariant : forall ops o k,
+  hist_dom_all empty_db (ops ++ [o]) ->
+  exists db, wf_db db /\
+    R db (durable (r_db (snd (exec_op o (fresh_rstate (snd (run_ops empty_db ops)) (Some k)))))).
+Proof. exact fault_after_history_keeps_invariant. Qed.
+Print Assumptions C04_fault_after_any_history_keeps_invariant.
+
+Theorem C04_fault_keeps_refinement : forall db h o k,
+  wf_db db -> Rdb' db h -> (closed h = false -> op_dom_all db o) ->
+  exists db', wf_db db' /\ Rdb' db' (r_db (snd (exec_op o (fresh_rstate h (Some k))))).
+Proof. exact fault_keeps_refinement. Qed.
+Print Assumptions C04_fault_keeps_refinement.
+
+Theorem C04_fault_fired_reported_every_operation : forall h o k,
+  r_fired (snd (exec_op o (fresh_rstate h (Some k)))) = true ->
+  T_is_err (fst (exec_op o (fresh_rstate h (Some k)))) = true.
+Proof. exact fault_fired_reported_all. Qed.
+Print Assumptions C04_fault_fired_reported_every_operation.
